@@ -15,7 +15,7 @@ from ..core import Check, Ctx
 ID = "C10"
 RULE = (
     "Hypothesis-generated disparity datasets: sizes from {filter..12} and, tile-constructed, {49,50,51,99,100,101,149,"
-    "150,151}; disparities on a 1/4 grid or arbitrary float32; invalid pixels anywhere (NaN or -9999 plus an invalid "
+    "150,151} and 100k + filter_size + {-1,0,1} for k = 1, 2; disparities on a 1/4 grid or arbitrary float32; invalid pixels anywhere (NaN or -9999 plus an invalid "
     "bit incl. 8/9); odd filter_size 1-9 (median, median_for_intervals), sigma_space/sigma_color in [0.3,20] "
     "(bilateral); interval bands with NaN on invalid pixels and regularisation on/off for median_for_intervals. "
     "Non-trivial = at least one valid pixel whose window contains an invalid pixel and at least one pixel whose value "
@@ -55,8 +55,10 @@ def cases(draw):
     ty = draw(st.integers(1, 7))
     tx = draw(st.integers(1, 7))
     if big:
-        ny = draw(st.sampled_from(BIG + [need + 3]))
-        nx = draw(st.sampled_from(BIG + [need + 3]))
+        # around the 100-pixel processing blocks, also counted from the first complete window (100*k + filter_size)
+        edge = [100 * k + need + e for k in (1, 2) for e in (-1, 0, 1)]
+        ny = draw(st.sampled_from(BIG + edge + [need + 3]))
+        nx = draw(st.sampled_from(BIG + edge + [need + 3] * (3 if ny > 160 else 1)))
     else:
         ny = draw(st.integers(need, 12))
         nx = draw(st.integers(need, 12))
